@@ -203,7 +203,7 @@ def rand_leaf(rng, bad_p):
     if r < 0.84:
         return rng.choice([DEP, ("node", ("tobjL", None, [("text", "o")])), ("node", ("tobj1", "<r>", ("html", "h")))])
     if r < 0.84 + bad_p:
-        return rng.choice([("bad", rng.randint(0, 7)), rand_seq(rng, 0, 0.0)])
+        return rng.choice([("bad", rng.randint(0, 8)), ("bad", 8), rand_seq(rng, 0, 0.0)])
     return S(rng.choice(["a", "", "cd"]))
 
 
@@ -415,7 +415,7 @@ def run(tier: str) -> int:
     shapes += [(k, [a]) for a in POOL for k in ("list", "tuple", "tl")]
     shapes += [("list", [a, ("tuple", [b])]) for a in SMALL_POOL for b in SMALL_POOL]
     shapes += [num_term(v) for v in NUMS]
-    shapes += [("bad", k) for k in range(8)]
+    shapes += [("bad", k) for k in range(9)]
     for _ in range(ck.budget(1500, 30000)):
         shapes.append(rand_arg(rng, rng.randint(0, 5), rng.choice([0.0, 0.05, 0.15])) if rng.random() < 0.8
                       else rand_seq(rng, 2, 0.05))
